@@ -242,6 +242,22 @@ def run(ctx, which):
                 cls={"function": fname, "kind": "bounded"},
             ))
 
+    # ---- set_union_merge_many: bounded stand-in (never counted as proved; DESIGN §6 C08)
+    many = _kw({"op": "search_many", "variant": variant, "maxk": 3 if ctx.tier != "thorough" else 4})
+    per_function["BOUNDED:set_union_merge_many"] = {"level": "bounded", "calls": many["calls"], "failing": len(many["hits"]),
+                                                    "scope": "all lists of <= %d strictly increasing arrays over {0,1,5,2**32-2,2**32-1}" % (3 if ctx.tier != "thorough" else 4)}
+    seen_cls = set()
+    for h in many["hits"]:
+        if which == "C09" and not (isinstance(h["outcome"], str) and "IndexError" in h["outcome"]):
+            continue  # C09 is about memory safety only: on the bounds-checked build that is an IndexError
+        if h["class"] in seen_cls:
+            continue
+        seen_cls.add(h["class"])
+        ctx.violation(core.Violation(
+            which, "set_operations.set_union_merge_many/bounded-contract[%s]" % h["class"],
+            "bounded run of the real code: set_union_merge_many(%s) -> %s, expected %s" % (h["args"], h["outcome"], h["expected"]),
+            input={"function": "set_union_merge_many", "args": h["args"], "build": variant}, cls={"function": "set_union_merge_many", "class": h["class"]}))
+
     # ---- invariants against real traces (only meaningful where the sidecar binds)
     traces = {}
     for key, ex in executors.items():
